@@ -173,6 +173,10 @@ def pmtm(x, NW=None, k=None, NFFT=None, e=None, v=None, method="adapt", show=Fal
     """
     assert method in ["adapt", "eigen", "unity"]
 
+    x = np.asarray(x)
+    if x.dtype.kind in 'iub':
+        # integer samples: the signal power must not be accumulated in the sample type
+        x = x.astype(float)
     N = len(x)
 
     # if dpss not provided, compute them
